@@ -222,19 +222,25 @@ func (x *verifC16Run) guard(what string, fn func()) {
 	fn()
 }
 
-var verifC16FrameRe = regexp.MustCompile(`(?m)^(github\.com/hashicorp/consul[^\s(]*)\(`)
 var verifC16Sanitize = regexp.MustCompile(`[^A-Za-z0-9_.=-]+`)
 
+// verifC16PanicSite names the innermost consul (non-harness) function of a panic stack.
 func verifC16PanicSite(stack string) string {
-	for _, m := range verifC16FrameRe.FindAllStringSubmatch(stack, -1) {
-		fn := m[1]
-		if strings.Contains(fn, "verifkit") || strings.Contains(fn, ".verif") || strings.Contains(fn, ".Verif") || strings.Contains(fn, ".TestVerif") {
+	for _, line := range strings.Split(stack, "\n") {
+		if !strings.HasPrefix(line, "github.com/hashicorp/consul") {
+			continue
+		}
+		fn := line
+		if i := strings.LastIndex(fn, "("); i > 0 {
+			fn = fn[:i]
+		}
+		if strings.Contains(fn, "verifkit") || strings.Contains(fn, "verifC16") || strings.Contains(fn, "TestVerifC16") {
 			continue
 		}
 		if i := strings.LastIndex(fn, "/"); i >= 0 {
 			fn = fn[i+1:]
 		}
-		return verifC16Sanitize.ReplaceAllString(fn, "_")
+		return strings.Trim(verifC16Sanitize.ReplaceAllString(fn, "_"), "_")
 	}
 	return "unknown"
 }
@@ -555,7 +561,11 @@ func (x *verifC16Run) step(op verifC16Op) {
 		cid := structs.NewCheckID(types.CheckID(op.Chk.ID), nil)
 		if cs := x.st.CheckState(cid); cs != nil {
 			x.dirty["chk:"+op.Chk.ID] = true
-			x.st.UpdateCheck(cid, verifC16Status(op.Chk.Status), op.Chk.Output)
+			status := cs.Check.Status
+			if op.Chk.Status != "" {
+				status = verifC16Status(op.Chk.Status)
+			}
+			x.st.UpdateCheck(cid, status, op.Chk.Output)
 			if after := x.st.CheckState(cid); after != nil && after.DeferCheck != nil {
 				x.label("deferred-output")
 			}
@@ -596,6 +606,15 @@ func (x *verifC16Run) sync(full, final bool) {
 			etoTags[id] = append([]string{}, s.Tags...)
 		}
 	}
+	// checks whose removal is pending (Deleted) when the sync starts, with the service the State believes they belong to
+	pending := map[string]string{}
+	x.st.RLock()
+	for id, c := range x.st.checks {
+		if c.Deleted && c.Check != nil {
+			pending[string(id.ID)] = c.Check.ServiceID
+		}
+	}
+	x.st.RUnlock()
 	var err error
 	x.guard("sync", func() {
 		if full {
@@ -652,6 +671,46 @@ func (x *verifC16Run) sync(full, final bool) {
 		x.label("sync=full")
 	} else {
 		x.label("sync=changes")
+	}
+
+	// (d) a pending check removal may only be dropped once the catalog no longer holds the check. deleteService drops
+	// the pending removals of "the service's checks" without a deregistration of their own, trusting the catalog to
+	// cascade; it decides by the LOCAL record of which service the check belongs to.
+	{
+		chks := x.cat.checks()
+		var ids []string
+		for id := range pending {
+			ids = append(ids, id)
+		}
+		sort.Strings(ids)
+		for _, id := range ids {
+			r := chks[id]
+			if r == nil || x.exemptRemoval("chk:"+id) {
+				continue
+			}
+			x.st.RLock()
+			c := x.st.checks[structs.NewCheckID(types.CheckID(id), nil)]
+			x.st.RUnlock()
+			if c != nil {
+				continue // still tracked (Deleted) or registered again
+			}
+			deregistered := false
+			for _, call := range calls {
+				if call.Desc == "dereg-chk:"+id && (call.OK || call.Fault == "unknown" || call.Fault == "err-applied") {
+					deregistered = true
+				}
+			}
+			if deregistered {
+				continue
+			}
+			if r.ServiceID != pending[id] {
+				if x.fail("C16/pending-check-removal-dropped-with-service/catalog-copy-attached-elsewhere",
+					"check %s was removed locally (as a check of service %q); this sync dropped the pending removal without deregistering the check, but the catalog's copy is attached to service %q and is still there (calls %s)",
+					id, pending[id], r.ServiceID, verifC16Calls(calls)) {
+					x.tolerated["chk:"+id] = true
+				}
+			}
+		}
 	}
 
 	// (e) entries the agent documents as managed by the servers are never deregistered by it
@@ -837,6 +896,10 @@ func verifC16DiffCheck(l, r *structs.HealthCheck, skipOutput bool) string {
 	return ""
 }
 
+func (x *verifC16Run) exemptRemoval(ent string) bool {
+	return x.driftAll || x.drifted[ent] || x.tolerated[ent]
+}
+
 func (x *verifC16Run) exempt(ent string) bool {
 	return x.driftAll || x.refused[ent] || x.drifted[ent] || x.tolerated[ent]
 }
@@ -989,7 +1052,7 @@ func (x *verifC16Run) converged(calls []verifC16RPCRec) {
 		if id == string(structs.SerfCheckID) {
 			continue
 		}
-		if _, ok := lchks[structs.NewCheckID(types.CheckID(id), nil)]; !ok {
+		if _, ok := lchks[structs.NewCheckID(types.CheckID(id), nil)]; !ok && !x.tolerated["chk:"+id] {
 			fs = append(fs, finding{"C16/" + what + "/foreign-check-left-in-catalog", fmt.Sprintf("catalog check %s is not registered locally", id)})
 		}
 	}
